@@ -1360,6 +1360,16 @@ func (h *Hashgraph) ProcessSigPool() error {
 	h.logger.WithField("pending_signatures", h.PendingSignatures.Len()).Debug("ProcessSigPool()")
 
 	for _, bs := range h.PendingSignatures.Items() {
+		// A signature can arrive before this hashgraph has produced the
+		// corresponding block. It stays pending until then. Without this
+		// check, a persistent Store could return a Block written during a
+		// previous run (Bootstrap replays the hashgraph with an empty cache),
+		// and Store.SetBlock would then move LastBlockIndex ahead of the blocks
+		// that were actually recreated.
+		if bs.Index > h.Store.LastBlockIndex() {
+			continue
+		}
+
 		block, err := h.Store.GetBlock(bs.Index)
 		if err != nil {
 			h.logger.WithFields(logrus.Fields{
